@@ -137,7 +137,7 @@ def make_functions(cluster):
     modname = "c09m_%d_%d" % (os.getpid(), _n[0])
     src = ("from twosigma.memento import memento_function\nimport c09\n\n\n"
            "@memento_function(cluster=%r)\ndef work(x):\n    c09.REC.log(x)\n    return [x, x * x, 'v']\n\n\n"
-           "@memento_function(cluster=%r)\ndef other(x):\n    c09.REC.log(x)\n    return [x, x * x, 'v']\n\n\n"
+           "@memento_function(cluster=%r)\ndef other(x):\n    c09.REC.log(x + 100)\n    return [x, x * x, 'v']\n\n\n"
            "@memento_function(cluster=%r)\ndef outer(x):\n    c09.REC.log(x)\n    w = work(x - 200)\n"
            "    return [x, x * x, 'v' if w == [x - 200, (x - 200) * (x - 200), 'v'] else 'inner-wrong']\n" % (cluster, cluster, cluster))
     fname = "<%s>" % modname
@@ -154,9 +154,14 @@ def cache_accounts(storage):
     c = getattr(storage, "_memory_cache", None)
     if c is None:
         return None
-    short = lambda k: k.rsplit("/", 1)[-1][:12]         # the argument hash identifies the call (the module name is per run)
+    # function name + argument hash identify the call (the module name and the version are per run)
+    short = lambda k: k.rsplit("/", 1)[0].split(":")[-1].split("#")[0] + "/" + k.rsplit("/", 1)[-1][:12]
     return dict(usage=c.memory_usage, resident_total=sum(e.obj_size for e in c.cache.values()), budget=c.memory_cache_bytes,
                 resident=sorted(short(k) for k in c.cache), lru=[short(k) for k in c.lru_deque])
+
+
+def arg_of(x):
+    return x - 100 if 100 <= x < 200 else x
 
 
 def run_scenario(sc, schedule, root):
@@ -179,8 +184,9 @@ def run_scenario(sc, schedule, root):
         work, other, outer = make_functions(cluster)
         # arguments >= 200 are calls of `outer` (which calls work(x - 200)), arguments >= 100 calls of the second function
         fn_of = lambda x: outer if x >= 200 else (other if x >= 100 else work)
+        # call id x in 100..199 is the call other(x - 100): the same argument (hence argument hash and result) as work(x - 100)
         for x in sc["warm"]:
-            fn_of(x)(x)
+            fn_of(x)(arg_of(x))
         if sc["cache"] == "cold" and getattr(st, "_memory_cache", None) is not None:
             st._memory_cache.forget_everything()
         if not sc.get("fine"):
@@ -188,28 +194,43 @@ def run_scenario(sc, schedule, root):
         del LOG[:]
         keyof = {}
         for x in set(sc["args"]) | {x - 200 for x in sc["args"] if x >= 200}:
-            fr = fn_of(x).fn_reference().with_args(x)
+            fr = fn_of(x).fn_reference().with_args(arg_of(x))
             keyof[(fr.fn_reference.qualified_name, fr.arg_hash)] = x
 
         def thunk(i, x):
             def go():
                 _tid.i = i + 1
                 LOG.append(("start", i + 1, x))
-                return fn_of(x)(x)
+                return fn_of(x)(arg_of(x))
             return go
         rl_file = rl.__file__
         want = lambda c: c.co_filename == rl_file
         want_call = None
         if sc.get("fine"):
-            # family C: the storage calls are not atomic units; every function entry inside the storage modules is a yield point
+            # family C: the storage calls are not atomic units; every function entry inside the storage modules is a yield
+            # point, and every line of the backend's own module (storage_memory.py / storage_filesystem.py) as well
             import twosigma.memento.storage_memory as smem
             import twosigma.memento.storage_base as sbase
-            files = {smem.__file__, sbase.__file__}
+            import twosigma.memento.storage_filesystem as sfs
+            files = {smem.__file__, sbase.__file__, sfs.__file__}
             want_call = lambda c: c.co_filename in files
+            own = smem.__file__ if sc.get("backend") == "memory" else sfs.__file__
+            want = lambda c: c.co_filename == rl_file or c.co_filename == own
         S = sched.Sched(want, block_timeout=0.08, want_call=want_call)
         results, steps, trace = S.run([thunk(i, x) for i, x in enumerate(sc["args"])], schedule)
         log = list(LOG)
-        return dict(results=results, steps=steps, log=log, keyof=keyof, cache=cache_accounts(st))
+        accounts = cache_accounts(st)
+        # afterwards: every call once more, one after the other — it must be served (no body runs) with the right value
+        after = []
+        _tid.i = 99
+        for x in sorted(set(sc["args"])):
+            n0 = sum(1 for e in LOG if e[0] == "exec")
+            try:
+                v = ("ok", fn_of(x)(arg_of(x)))
+            except BaseException as e:          # noqa
+                v = ("raise", type(e).__name__, str(e)[:200])
+            after.append(dict(arg=x, result=v, executions=sum(1 for e in LOG if e[0] == "exec") - n0))
+        return dict(results=results, steps=steps, log=log, keyof=keyof, cache=accounts, after=after)
     finally:
         undo()
         m.Environment.set(prev)
@@ -284,7 +305,7 @@ def judge(sc, obs, seq_cache):
     for i, (x, r) in enumerate(zip(sc["args"], obs["results"])):
         if r is None or r[0] != "ok":
             fails.append(dict(clause="no-internal-error", thread=i + 1, arg=x, got=r))
-        elif r[1] != [x, x * x, "v"]:
+        elif r[1] != [arg_of(x), arg_of(x) * arg_of(x), "v"]:
             fails.append(dict(clause="correct-value", thread=i + 1, arg=x, got=r[1]))
     execs = collections.Counter(e[2] for e in obs["log"] if e[0] == "exec")
     warm = set(sc["warm"]) | {x - 200 for x in sc["warm"] if x >= 200}
@@ -294,6 +315,14 @@ def judge(sc, obs, seq_cache):
             want = 0                          # the inner call is only made by bodies that do not run
         if execs.get(x, 0) != want:
             fails.append(dict(clause="single-flight", arg=x, executions=execs.get(x, 0), expected=want))
+    for a in obs.get("after", []):
+        x = a["arg"]
+        if a["result"][0] != "ok":
+            fails.append(dict(clause="no-internal-error", when="call repeated after the threads finished", arg=x, got=a["result"]))
+        elif a["result"][1] != [arg_of(x), arg_of(x) * arg_of(x), "v"]:
+            fails.append(dict(clause="correct-value", when="call repeated after the threads finished", arg=x, got=a["result"][1]))
+        if a["executions"]:
+            fails.append(dict(clause="single-flight", when="call repeated after the threads finished", arg=x, executions=a["executions"], expected=0))
     c = obs["cache"]
     if c is not None:
         if c["usage"] != c["resident_total"] or c["usage"] > c["budget"] or len(c["lru"]) != len(set(c["lru"])) or sorted(c["lru"]) != c["resident"]:
@@ -359,6 +388,10 @@ FINE_SCENARIOS = [
     dict(name="memory/cold/same-key/fine", args=[3, 3], warm=[], cache="none", backend="memory", fine=True),
     dict(name="memory/cold/different-keys/fine", args=[3, 4], warm=[], cache="none", backend="memory", fine=True),
     dict(name="memory/warm/same-key/fine", args=[3, 3], warm=[3], cache="none", backend="memory", fine=True),
+    # the filesystem backend without cache: two different functions with equal arguments (equal argument hashes, equal results
+    # would share a content key), two keys of one function
+    dict(name="fs/different-functions-equal-arguments/fine", args=[5, 105], warm=[], cache="none", backend="fs", fine=True),
+    dict(name="fs/cold/different-keys/fine", args=[5, 6], warm=[], cache="none", backend="fs", fine=True),
 ]
 
 
